@@ -824,6 +824,23 @@ func (v *fnVC) store(addr T, t types.Type, val T) {
 	s := v.P.sortOf(t)
 	m, mt := v.mem(s)
 	v.setMem(m, sto(mt, addr, val))
+	// a value of an external struct type with exported fields (reflect.StructField, reflect.Method, ...): the code
+	// may read its fields through their own addresses afterwards; they hold the field functions of the stored value
+	if n, ok := t.(*types.Named); ok {
+		if st, ok := n.Underlying().(*types.Struct); ok && n.Obj().Pkg() != nil && !strings.HasPrefix(n.Obj().Pkg().Path(), modPrefix) {
+			for i := 0; i < st.NumFields(); i++ {
+				f := st.Field(i)
+				if !f.Exported() {
+					continue
+				}
+				fn := "xf_" + sanitize(s+"_"+f.Name())
+				fs := v.P.sortOf(f.Type())
+				v.P.add(fn, fmt.Sprintf("(declare-fun %s (%s) %s)", fn, s, fs))
+				fm, fmt_ := v.mem(fs)
+				v.setMem(fm, sto(fmt_, v.fieldAddr(n, f.Name(), addr), app(fn, val)))
+			}
+		}
+	}
 }
 
 // zeroOfMem: zero value of the leaf sort held by memory m (for make/zero-initialisation).
